@@ -304,8 +304,13 @@ func (server *SugarDB) setExpiry(ctx context.Context, key string, expireAt time.
 	}
 
 	// If the slice of keys associated with expiry time does not contain the current key, add the key.
+	// A key whose deadline is being removed is not volatile any more and leaves the slice.
 	server.keysWithExpiry.rwMutex.Lock()
-	if !slices.Contains(server.keysWithExpiry.keys[database], key) {
+	if expireAt == (time.Time{}) {
+		server.keysWithExpiry.keys[database] = slices.DeleteFunc(server.keysWithExpiry.keys[database], func(k string) bool {
+			return k == key
+		})
+	} else if !slices.Contains(server.keysWithExpiry.keys[database], key) {
 		server.keysWithExpiry.keys[database] = append(server.keysWithExpiry.keys[database], key)
 	}
 	server.keysWithExpiry.rwMutex.Unlock()
